@@ -732,9 +732,12 @@ def check(run):
 
 
 # --------------------------------------------------------------------------- sessions (history dimension)
+PAIR_ROUTES = ["render", "def", "context_bytes"]          # routes in the exhaustive two-operation sessions
+
+
 def op_label(op):
     if op["k"] == "render":
-        return "render(%s)" % op["b"]
+        return "render[%s](%s)" % (op.get("r", ""), op["b"])
     if op["k"] == "encode":
         return "str.encode(htmlentityreplace)"
     return "filter(%s)" % op["a"]
@@ -747,40 +750,55 @@ def sessions(run, thorough, nproc, wk):
     import subprocess
     from concurrent.futures import ThreadPoolExecutor
     chars = sorted(set("".join(SESS_STRINGS)) | set(QUICK_ALPHA))
-    cfg = ("CONSTANTS Alphabet <- FileAlphabet  GenNames <- FileGen  Charsets <- FileCharsets  MaxLen = 0  MaxOps = 2\n"
-           " SessCharsets = {%s}\nSPECIFICATION SSpec\nINVARIANT HistoryIndependent\nINVARIANT ProcUntouched\nINVARIANT HandlerAlways\n"
-           "CHECK_DEADLOCK FALSE\n" % ", ".join('"%s"' % c for c in SESS_CHARSETS))
-    res = run.tlc("Session_Escape", cfg, name="sessions", workers=wk(4), timeout=900, heap="2g",
-                  extra_files={"EscapeInput.tla": input_module(chars, [], [], SESS_STRINGS)})
-    if res.violated:
-        run.spec_violation(res, "TLC: the design admits a history-dependent result (%s)" % res.violated)
-        return
-    rows = []
-    for line in res.out.splitlines():
-        if line.startswith('"{'):
-            v = json.loads(json.loads(line))
-            if "ops" in v and "res" in v:
-                rows.append(v)
-    key = lambda o: (o["k"], o["a"], o["b"], o["s"])
-    seen = {}
-    for v in rows:
-        seen[tuple(key(o) for o in v["ops"])] = v
-    singles = {k[0]: v for k, v in seen.items() if len(k) == 1}
-    nops = len(singles)
-    want = (len(SESS_CHARSETS) * 5 + len(SESS_CHARSETS) + 7) * len(SESS_STRINGS)
-    if nops != want or len(seen) != nops + nops * nops:
-        raise MachineryError("sessions: TLC exported %d operations (expected %d) and %d sessions" % (nops, want, len(seen)))
-    sess = [v for k, v in sorted(seen.items()) if len(k) == 2]
-    # sampled sessions of three operations: expectations are per operation (history independent in the model)
+    from .c10_session import ROUTES
+
+    def scfg(maxops, routes):
+        return ("CONSTANTS Alphabet <- FileAlphabet  GenNames <- FileGen  Charsets <- FileCharsets  MaxLen = 0  MaxOps = %d\n"
+                " SessCharsets = {%s}\n Routes = {%s}\nSPECIFICATION SSpec\nINVARIANT HistoryIndependent\nINVARIANT ProcUntouched\n"
+                "INVARIANT HandlerAlways\nINVARIANT RouteIndependent\nCHECK_DEADLOCK FALSE\n"
+                % (maxops, ", ".join('"%s"' % c for c in SESS_CHARSETS), ", ".join('"%s"' % r for r in routes)))
+
+    def rows_of(res):
+        out = {}
+        for line in res.out.splitlines():
+            if line.startswith('"{'):
+                v = json.loads(json.loads(line))
+                if "ops" in v and "res" in v:
+                    out[tuple((o["k"], o["a"], o["b"], o["s"], o["r"]) for o in v["ops"])] = v
+        return out
+    mod = input_module(chars, [], [], SESS_STRINGS)
+    with ThreadPoolExecutor(max_workers=2) as ex:
+        f1 = ex.submit(run.tlc, "Session_Escape", scfg(1, ROUTES), name="sessions-all-routes", workers=wk(2), timeout=900, heap="2g",
+                       extra_files={"EscapeInput.tla": mod})
+        f2 = ex.submit(run.tlc, "Session_Escape", scfg(2, PAIR_ROUTES), name="sessions-pairs", workers=wk(4), timeout=900, heap="2g",
+                       extra_files={"EscapeInput.tla": mod})
+        res1, res2 = f1.result(), f2.result()
+    for res in (res1, res2):
+        if res.violated:
+            run.spec_violation(res, "TLC: the design admits a history- or route-dependent result (%s)" % res.violated)
+            return
+    singles = {k[0]: v for k, v in rows_of(res1).items() if len(k) == 1}
+    seen = rows_of(res2)
+    nfix = (len(SESS_CHARSETS) + 7) * len(SESS_STRINGS)
+    want1 = len(ROUTES) * len(SESS_CHARSETS) * 5 * len(SESS_STRINGS) + nfix
+    want2 = len(PAIR_ROUTES) * len(SESS_CHARSETS) * 5 * len(SESS_STRINGS) + nfix
+    if len(singles) != want1 or len(seen) != want2 + want2 * want2:
+        raise MachineryError("sessions: TLC exported %d operations (expected %d) and %d sessions (expected %d)"
+                             % (len(singles), want1, len(seen), want2 + want2 * want2))
+    # every operation alone (every route); every pair over PAIR_ROUTES (quick: the later operation on the string with
+    # markup and unencodable characters, the earlier one on it or on the plain string; thorough: all); sampled triples
+    # over everything
+    sess = [v for k, v in sorted(singles.items())]
+    sess += [v for k, v in sorted(seen.items()) if len(k) == 2 and (thorough or (k[0][3] in (1, 2) and k[1][3] == 2))]
     opkeys = sorted(singles)
-    for _ in range(1500 if thorough else 400):
+    for _ in range(2000 if thorough else 500):
         ks = [run.rng.choice(opkeys) for _ in range(3)]
         sess.append({"ops": [singles[k]["ops"][0] for k in ks], "res": [singles[k]["res"][0] for k in ks]})
     jobs = []
     for i, v in enumerate(sess):
-        ops = [dict(k=o["k"], a=o["a"], b=o["b"], text=text_of(o["arg"])) for o in v["ops"]]
+        ops = [dict(k=o["k"], a=o["a"], b=o["b"], r=o["r"], text=text_of(o["arg"])) for o in v["ops"]]
         jobs.append({"id": i, "ops": ops})
-    nchunk = max(1, min(nproc, 8))
+    nchunk = max(1, min(nproc, 16))
     chunks = [jobs[i::nchunk] for i in range(nchunk)]
 
     def child(chunk):
@@ -796,6 +814,7 @@ def sessions(run, thorough, nproc, wk):
         outs = [o for part in ex.map(child, chunks) for o in part]
     got = {o["id"]: o["res"] for o in outs}
     mism = {}
+    alone = set()
     ncmp = 0
     for i, v in enumerate(sess):
         obs = got.get(i)
@@ -805,9 +824,14 @@ def sessions(run, thorough, nproc, wk):
             ncmp += 1
             d = session_diff(op, exp, obs[j])
             if d:
-                prev = "+".join(op_label(o) for o in v["ops"][:j]) or "nothing"
-                sig = "history:%s:after:%s:%s" % (op_label(op), prev, d)
-                mism.setdefault(sig, []).append({"session": [dict(o, arg=text_of(o["arg"])) for o in v["ops"]], "failing_op": j,
+                if j == 0:
+                    sig = "route:%s:%s" % (op_label(op), d)         # wrong already in a fresh process: not a matter of history
+                    alone.add((op_label(op), d))
+                elif (op_label(op), d) in alone:
+                    break                                             # already reported for the operation alone
+                else:
+                    sig = "history:%s:after:%s:%s" % (op_label(op), "+".join(op_label(o) for o in v["ops"][:j]), d)
+                mism.setdefault(sig, []).append({"subject": op["k"] != "render" or op["b"] == "htmlentityreplace", "session": [dict(o, arg=text_of(o["arg"])) for o in v["ops"]], "failing_op": j,
                                                  "expected": exp if exp and exp[0].startswith("?") else text_of(exp), "observed": obs[j]})
                 break
     run.traces += len(sess)
@@ -816,7 +840,7 @@ def sessions(run, thorough, nproc, wk):
     # report the shortest histories first; a failure that already shows in a one-operation history is not history dependent
     # The property speaks of the filters and of htmlentityreplace; a history-dependent result of a render with
     # ANOTHER errors mode is outside its clauses (recorded in the evidence, not a C10 verdict).
-    subject = {g: ms for g, ms in mism.items() if not g.startswith("history:render(") or g.startswith("history:render(htmlentityreplace)")}
+    subject = {g: ms for g, ms in mism.items() if ms[0]["subject"]}
     run.extra["history_dependence_outside_property"] = sorted(set(mism) - set(subject))[:20]
     for sig, ms in sorted(subject.items(), key=lambda kv: (len(kv[1][0]["session"]), kv[0]))[:12]:
         run.violation(sig, "in one process, %s" % sig, {"example": ms[0], "count": len(ms)})
